@@ -658,4 +658,117 @@ theorem rbRun_map (s : RT κ ν × Int) (ops : List (Op κ ν)) :
       cases rbRun cmp s' ops <;> rfl
 
 end
+
+/-! ### consequence: every object stored or shown is an object the caller passed -/
+
+/-- key objects passed to the calls of a history -/
+def passedKeys (ops : List (Op κ ν)) : List κ := ops.flatMap Op.keys
+/-- value objects passed to the calls of a history (to `p_tree_insert`: no other call takes a value) -/
+def passedVals (ops : List (Op κ ν)) : List ν := ops.flatMap Op.vals
+
+/-- every key / value object among `stored` and in `outs` has the property `P` / `Q` -/
+def AllObjects (P : κ → Prop) (Q : ν → Prop) (stored : List (κ × ν)) (outs : List (Out κ ν)) : Prop :=
+  (∀ p ∈ stored, P p.1 ∧ Q p.2) ∧ ∀ o ∈ outs, (∀ k ∈ o.keys, P k) ∧ ∀ v ∈ o.vals, Q v
+
+/-- an operation whose objects satisfy `P` / `Q`, as an operation on the subtypes -/
+def liftOp (P : κ → Prop) (Q : ν → Prop) : (op : Op κ ν) → (∀ k ∈ op.keys, P k) → (∀ v ∈ op.vals, Q v) →
+    Op {k // P k} {v // Q v}
+  | .ins k v, hk, hv => .ins ⟨k, hk k (by simp [Op.keys])⟩ ⟨v, hv v (by simp [Op.vals])⟩
+  | .insf k v, hk, hv => .insf ⟨k, hk k (by simp [Op.keys])⟩ ⟨v, hv v (by simp [Op.vals])⟩
+  | .rem k, hk, _ => .rem ⟨k, hk k (by simp [Op.keys])⟩
+  | .get k, hk, _ => .get ⟨k, hk k (by simp [Op.keys])⟩
+  | .each j, _, _ => .each j
+  | .clear, _, _ => .clear
+  | .count, _, _ => .count
+
+theorem liftOp_map (P : κ → Prop) (Q : ν → Prop) (op : Op κ ν) (hk : ∀ k ∈ op.keys, P k) (hv : ∀ v ∈ op.vals, Q v) :
+    (liftOp P Q op hk hv).map Subtype.val Subtype.val = op := by
+  cases op <;> rfl
+
+def liftOps (P : κ → Prop) (Q : ν → Prop) : (ops : List (Op κ ν)) →
+    (∀ op ∈ ops, (∀ k ∈ op.keys, P k) ∧ ∀ v ∈ op.vals, Q v) → List (Op {k // P k} {v // Q v})
+  | [], _ => []
+  | op :: ops, H =>
+    liftOp P Q op (H op List.mem_cons_self).1 (H op List.mem_cons_self).2 ::
+      liftOps P Q ops (fun o ho => H o (List.mem_cons_of_mem _ ho))
+
+theorem liftOps_map (P : κ → Prop) (Q : ν → Prop) (ops : List (Op κ ν))
+    (H : ∀ op ∈ ops, (∀ k ∈ op.keys, P k) ∧ ∀ v ∈ op.vals, Q v) :
+    (liftOps P Q ops H).map (Op.map Subtype.val Subtype.val) = ops := by
+  induction ops with
+  | nil => rfl
+  | cons op ops ih => simp only [liftOps, List.map_cons, liftOp_map, ih]
+
+theorem allObjects_val {P : κ → Prop} {Q : ν → Prop} (l : List ({k // P k} × {v // Q v}))
+    (os : List (Out {k // P k} {v // Q v})) :
+    AllObjects P Q (mapPairs Subtype.val Subtype.val l) (os.map (Out.map Subtype.val Subtype.val)) := by
+  refine ⟨fun p hp => ?_, fun o ho => ?_⟩
+  · obtain ⟨q, _, rfl⟩ := List.mem_map.1 hp
+    exact ⟨q.1.2, q.2.2⟩
+  · obtain ⟨o₀, _, rfl⟩ := List.mem_map.1 ho
+    rw [Out.keys_map, Out.vals_map]
+    refine ⟨fun k hk => ?_, fun v hv => ?_⟩
+    · obtain ⟨k₀, _, rfl⟩ := List.mem_map.1 hk; exact k₀.2
+    · obtain ⟨v₀, _, rfl⟩ := List.mem_map.1 hv; exact v₀.2
+
+variable {cmp : κ → κ → Ordering}
+
+/-- any property of all key objects and any property of all value objects passed by the caller holds of every object
+    stored in the tree and of every object a call shows (looked up, visited, handed to a destroy notifier) -/
+theorem specRun_allObjects (P : κ → Prop) (Q : ν → Prop) (ops : List (Op κ ν))
+    (H : ∀ op ∈ ops, (∀ k ∈ op.keys, P k) ∧ ∀ v ∈ op.vals, Q v) :
+    AllObjects P Q (specRun cmp [] ops).1 (specRun cmp [] ops).2 := by
+  have key := specRun_map (cmp := fun a b : {k // P k} => cmp a.1 b.1) (cmp' := cmp) (h := Subtype.val)
+    (g := (Subtype.val : {v // Q v} → ν)) (fun _ _ => rfl) [] (liftOps P Q ops H)
+  rw [liftOps_map, mapPairs_nil] at key
+  rw [key]
+  exact allObjects_val _ _
+
+theorem bstRun_allObjects (P : κ → Prop) (Q : ν → Prop) (ops : List (Op κ ν))
+    (H : ∀ op ∈ ops, (∀ k ∈ op.keys, P k) ∧ ∀ v ∈ op.vals, Q v) :
+    AllObjects P Q (bstRun cmp (.nil, 0) ops).1.1.toList (bstRun cmp (.nil, 0) ops).2 := by
+  have key := bstRun_map (cmp := fun a b : {k // P k} => cmp a.1 b.1) (cmp' := cmp) (h := Subtype.val)
+    (g := (Subtype.val : {v // Q v} → ν)) (fun _ _ => rfl) (.nil, 0) (liftOps P Q ops H)
+  rw [liftOps_map] at key
+  simp only [BT.map] at key
+  rw [key, BT.toList_map]
+  exact allObjects_val _ _
+
+theorem avlRun_allObjects (P : κ → Prop) (Q : ν → Prop) (ops : List (Op κ ν))
+    (H : ∀ op ∈ ops, (∀ k ∈ op.keys, P k) ∧ ∀ v ∈ op.vals, Q v) (s : AT κ ν × Int) (outs : List (Out κ ν))
+    (hr : avlRun cmp (.nil, 0) ops = some (s, outs)) : AllObjects P Q s.1.toList outs := by
+  have key := avlRun_map (cmp := fun a b : {k // P k} => cmp a.1 b.1) (cmp' := cmp) (h := Subtype.val)
+    (g := (Subtype.val : {v // Q v} → ν)) (fun _ _ => rfl) (.nil, 0) (liftOps P Q ops H)
+  rw [liftOps_map] at key
+  simp only [AT.map] at key
+  rw [hr] at key
+  rcases hm : avlRun (fun a b : {k // P k} => cmp a.1 b.1) (.nil, 0) (liftOps P Q ops H) with _ | r₀
+  · rw [hm] at key; cases key
+  · rw [hm] at key
+    simp only [Option.map_some, Option.some.injEq, Prod.mk.injEq] at key
+    obtain ⟨rfl, rfl⟩ := key
+    rw [AT.toList_map]
+    exact allObjects_val _ _
+
+theorem rbRun_allObjects (P : κ → Prop) (Q : ν → Prop) (ops : List (Op κ ν))
+    (H : ∀ op ∈ ops, (∀ k ∈ op.keys, P k) ∧ ∀ v ∈ op.vals, Q v) (s : RT κ ν × Int) (outs : List (Out κ ν))
+    (hr : rbRun cmp (.nil, 0) ops = some (s, outs)) : AllObjects P Q s.1.toList outs := by
+  have key := rbRun_map (cmp := fun a b : {k // P k} => cmp a.1 b.1) (cmp' := cmp) (h := Subtype.val)
+    (g := (Subtype.val : {v // Q v} → ν)) (fun _ _ => rfl) (.nil, 0) (liftOps P Q ops H)
+  rw [liftOps_map] at key
+  simp only [RT.map] at key
+  rw [hr] at key
+  rcases hm : rbRun (fun a b : {k // P k} => cmp a.1 b.1) (.nil, 0) (liftOps P Q ops H) with _ | r₀
+  · rw [hm] at key; cases key
+  · rw [hm] at key
+    simp only [Option.map_some, Option.some.injEq, Prod.mk.injEq] at key
+    obtain ⟨rfl, rfl⟩ := key
+    rw [RT.toList_map]
+    exact allObjects_val _ _
+
+/-- the hypothesis of the four theorems above for "is one of the objects the caller passed" -/
+theorem passed_self (ops : List (Op κ ν)) :
+    ∀ op ∈ ops, (∀ k ∈ op.keys, k ∈ passedKeys ops) ∧ ∀ v ∈ op.vals, v ∈ passedVals ops :=
+  fun op ho => ⟨fun _ hk => List.mem_flatMap.2 ⟨op, ho, hk⟩, fun _ hv => List.mem_flatMap.2 ⟨op, ho, hv⟩⟩
+
 end PV.Tree
